@@ -32,6 +32,10 @@ class FMarker:
     """Products of marker *factories* (the factory table is part of a context's snapshot)."""
 
 
+class _Ballast:
+    """Unrelated resources that merely make a context big."""
+
+
 class H:
     def __init__(self, sim: Sim, plan: dict) -> None:
         self.sim = sim
@@ -45,6 +49,7 @@ class H:
         self.handles: dict[str, Any] = {}
         self.events: dict[str, anyio.Event] = {}
         self.fac_names: list[str] = []
+        self.products: dict[int, int] = {}
         self.scope: CancelScope | None = None
 
     def know(self, ctx: Context, cid: str) -> None:
@@ -69,10 +74,16 @@ class H:
         out = []
         for n in self.fac_names:
             try:
-                if ctx.get_resource_nowait(FMarker, n, optional=True) is not None:
-                    out.append(n)
+                obj = ctx.get_resource_nowait(FMarker, n, optional=True)
             except Exception:  # noqa: BLE001
                 out.append(n + "!")
+                continue
+            if obj is not None:
+                # what a factory generates for one context is that context's own: the
+                # same object turning up in another context is not a visible *factory*
+                self.keep.append(obj)
+                first = self.products.setdefault(id(obj), id(ctx))
+                out.append(n if first == id(ctx) else n + "@product_of_another_context")
         return sorted(out)
 
     # ---------------------------------------------------------------- blocks
@@ -85,6 +96,9 @@ class H:
         try:
             async with ctx:
                 try:
+                    for i in range(b.get("ballast", 0)):
+                        # scale knob: the context carries dozens of unrelated resources
+                        ctx.add_resource(_Ballast(), f"zb{i}")
                     await self.acts(b.get("body", ()), cid)
                     end = b.get("end") or {}
                     if end.get("how") == "raise":
@@ -746,6 +760,9 @@ def oracle(sim: Sim, plan: dict) -> list[dict]:
     reg_begin = {r[5]["cb"]: r for r in tr if r[4] == "reg_begin"}
     cb_start = {r[5]["cb"]: r for r in tr if r[4] == "cb_start"}
 
+    last_of_task: dict[str, int] = {}
+    for r in tr:
+        last_of_task[r[3]] = r[0]
     for name, s in svc.items():
         c = s["ctx"]
         spec = spec_of.get(name, {})
@@ -849,6 +866,22 @@ def oracle(sim: Sim, plan: dict) -> list[dict]:
                         "C08.order",
                         "later_callback_after_task_touched",
                         f"callback {d['cb']} (registered after service task {name} was started) ran only after the task was stopped",
+                    )
+        # ... and against service tasks of the same context started later (in the body):
+        # each of those is stopped, and has finished, before this one is touched
+        if first_touch is not None and be is not None:
+            for other, so in svc.items():
+                if other == name or so["ctx"] != c or "svc_reg" not in so:
+                    continue
+                if not (reg_seq < so["call"][0] < be[0]):
+                    continue
+                o_last = last_of_task.get(f"Service task: {other}")
+                if o_last is not None and first_touch < o_last:
+                    v(
+                        "C08.order",
+                        "earlier_task_stopped_before_later_task_end",
+                        f"service task {name} was stopped while service task {other} (started after it in {c}) "
+                        f"and its context had not finished yet",
                     )
     # crashes must surface (only the first failure of a run is judged: once a root is being
     # brought down, what the backend does with further exceptions raised during that
@@ -1352,7 +1385,23 @@ def gen(rng: random.Random, tier: str, prop: str) -> dict:
     g = G(rng, tier, prop)
     backend = "asyncio" if rng.random() < 0.6 else "trio"
     n = rng.randint(2, 8 if tier == "quick" else 12)
+    burst = prop == "C08" and rng.random() < 0.07
+    if burst:
+        g.no_svc += 1
     root = {"id": "x1", "body": g.body(0, n, True), "catch": True, "end": {"how": "return"}}
+    if burst:
+        # scale knob: one context owns a long uninterrupted run of service tasks (and, often,
+        # one more is started while it is closing)
+        g.no_svc -= 1
+        run_ = [g.svc(False) for _ in range(rng.choice((8, 9, 12, 15, 15, 16, 17, 31)))]
+        pos = rng.randint(0, len(root["body"]))
+        root["body"][pos:pos] = run_
+        if rng.random() < 0.6:
+            late = g.svc(False)[1]
+            late["body"].pop("start_delay", None)
+            root["body"].insert(0, ["td", {"id": g.nid("c"), "async": True, "dur": rng.choice(DTS[:5]), "svc": late}])
+    if rng.random() < 0.08:
+        root["ballast"] = rng.choice((12, 13, 31, 32, 33, 40))
     plan: dict[str, Any] = {
         "v": 1,
         "world": NAME,
